@@ -15,16 +15,16 @@ ASSUMPTIONS = ["handlers are registered with the decorator forms @family.registe
 
 
 def run(project, rep):
-    T.t_r1(project, rep)
-    T.t_r2(project, rep)
-    T.t_r3(project, rep)
-    T.t_r4(project, rep)
-    T.t_r5(project, rep)
-    T.t_r6(project, rep)
-    T.t_r7(project, rep)
+    rep.run(T.t_r1, project, rep)
+    rep.run(T.t_r2, project, rep)
+    rep.run(T.t_r3, project, rep)
+    rep.run(T.t_r4, project, rep)
+    rep.run(T.t_r5, project, rep)
+    rep.run(T.t_r6, project, rep)
+    rep.run(T.t_r7, project, rep)
     from .. import rules_dates as Z
     from .. import rules_wire as L
-    Z.z_r2_naive(project, rep)
-    Z.z_r4_conversion(project, rep)
-    Z.z_r5_offset_sign(project, rep)
-    L.l_r3_datetime(project, rep)
+    rep.run(Z.z_r2_naive, project, rep)
+    rep.run(Z.z_r4_conversion, project, rep)
+    rep.run(Z.z_r5_offset_sign, project, rep)
+    rep.run(L.l_r3_datetime, project, rep)
